@@ -112,6 +112,10 @@ def check(tier, seed, replay=None):
         plan.append(('race:splits', RACE, cfg_of(s_ + 3, 4, 70, 1 - (r % 2), 64, r % 2, 8, 60, 2), renv))
         # inserts only, with a reader checking every count against the real-time bounds
         plan.append(('counts', HARNESS, cfg_of(s_ + 4, 6, 150, 0, 64, 1, 8, 30, 2), None))
+        # two collections of one process written at the same time (they share nothing a caller can see)
+        plan.append(('two-collections', HARNESS, cfg_of(s_ + 5, 4, 400, 0, rng.choice([8, 64]), 0, 8, 30, 3), None))
+        if r % 2 == 0:
+            plan.append(('race:two-collections', RACE, cfg_of(s_ + 6, 4, 120, 0, 64, 0, 8, 60, 3), renv))
     t_end = time.time() + (2400 if tier == 'thorough' else 400)
     if replay is not None:
         c = replay['config']
